@@ -90,7 +90,7 @@ def run_model(module: str, cfg: str | None = None, workers: int = 16, timeout: i
                   r'Error: Assumption .* is false', out)
     if m:
         res['violated'] = m.group(1) or m.group(2) or m.group(0)
-    elif rc != 0 or 'Model checking completed. No error has been found.' not in out:
+    elif rc != 0 or ('Model checking completed. No error has been found.' not in out and 'states generated' not in out):
         if '-simulate' in (extra or []) and rc == 0:
             pass
         else:
